@@ -290,7 +290,7 @@ def prints_tagged(res, tag):
     return out
 
 
-def validate_trace(trace_module, cfg, trace_path, timeout=600, xmx="3g", env_extra=None):
+def validate_trace(trace_module, cfg, trace_path, timeout=600, xmx="3g", env_extra=None, meta_suffix=""):
     """Trace validation: the trace spec reads IOEnv.TRACE, consumes every record
     and prints <<"VIOLS", n, <<...>>>> / <<"ACCEPT", consumed, total>>.
     Returns dict(consumed, total, viols=[[index, clause, detail], ...])."""
@@ -298,7 +298,7 @@ def validate_trace(trace_module, cfg, trace_path, timeout=600, xmx="3g", env_ext
     if env_extra:
         env.update(env_extra)
     r = tlc(trace_module, cfg, workers=1, timeout=timeout, env_extra=env, xmx=xmx, deque=True,
-            metaname="tv_%s_%d" % (trace_module, os.getpid()))
+            metaname="tv_%s_%d%s" % (trace_module, os.getpid(), meta_suffix))
     if r.timeout:
         raise ToolError("trace validation timed out: %s" % trace_path)
     acc = prints_tagged(r, "ACCEPT")
@@ -312,6 +312,64 @@ def validate_trace(trace_module, cfg, trace_path, timeout=600, xmx="3g", env_ext
     info = {"consumed": consumed, "total": total, "viols": viols, "generated": r.generated,
             "distinct": r.distinct, "wall": r.wall, "out": r.out}
     return info
+
+
+def validate_split(trace_module, cfg, trace_path, reset_ev, chunk=150000, parallel=4, timeout=900):
+    """Trace validation of a long trace in pieces: the trace is cut at scenario boundaries (records `reset_ev`) into
+    files of about `chunk` records, the pieces are validated side by side, the verdicts are merged (record indices
+    are those of the whole trace). The monitors keep no state across a reset record, so nothing is lost."""
+    import concurrent.futures
+    pieces = []          # (path, first index - 1, number of records)
+    cur, n, start, total = None, 0, 0, 0
+    marker = '"ev":"%s"' % reset_ev
+    with open(trace_path) as f:
+        for line in f:
+            if not line.strip():
+                continue
+            if cur is None or (n >= chunk and marker in line.replace('": "', '":"')):
+                if cur is not None:
+                    cur.close()
+                    pieces.append((ppath, start, n))
+                    start += n
+                ppath = "%s.part%d" % (trace_path, len(pieces))
+                cur = open(ppath, "w")
+                n = 0
+            cur.write(line)
+            n += 1
+            total += 1
+    if cur is not None:
+        cur.close()
+        pieces.append((ppath, start, n))
+    if len(pieces) <= 1:
+        for p, _, _ in pieces:
+            os.remove(p)
+        return validate_trace(trace_module, cfg, trace_path, timeout=timeout)
+
+    def one(args):
+        i, (p, off, cnt) = args
+        info = validate_trace(trace_module, cfg, p, timeout=timeout, meta_suffix="_p%d" % i)
+        return off, cnt, info
+    merged = {"consumed": 0, "total": total, "viols": [], "generated": 0, "distinct": 0, "wall": 0.0, "out": ""}
+    try:
+        with concurrent.futures.ThreadPoolExecutor(max_workers=parallel) as ex:
+            results = list(ex.map(one, enumerate(pieces)))
+    finally:
+        for p, _, _ in pieces:
+            try:
+                os.remove(p)
+            except OSError:
+                pass
+    complete = True
+    for off, cnt, info in sorted(results, key=lambda r: r[0]):
+        if complete:
+            merged["consumed"] = off + info["consumed"]
+            complete = info["consumed"] == info["total"]
+        for x in info["viols"]:
+            merged["viols"].append([x[0] + off] + list(x[1:]))
+        merged["generated"] += info["generated"]
+        merged["distinct"] += info["distinct"]
+        merged["wall"] = max(merged["wall"], info["wall"])
+    return merged
 
 
 # --------------------------------------------------------------------------
